@@ -1195,6 +1195,11 @@ impl<'a> GeneratorState<'a> {
         pos: usize,
         load: bool,
     ) -> Result<(), Error> {
+        if let ExprType::Nothing = expr {
+            return Err(self
+                .compiler_state
+                .syntax_error("Expression has no value (void function ?)", pos));
+        }
         self.protected = true;
         match expr {
             ExprType::X => {
